@@ -99,6 +99,7 @@ var callPool = []string{"join", "exec", "other"}
 var strPieces = []string{
 	"a", "file.go", "**/*.go", "*.txt", " ", "src/", "$HOME", "{", "}", "{{.X}}", "é", "日本", "#", "->", ":=",
 	"(", ")", ",", "task", "'", "\\", "\t", "x y", ".", "", "0", "-", "%s",
+	"\u200c", "\u200d", "\u00ad", "\ufeff", "e\u0301", "'q'", "it's", "\u202e",
 	"a/very/long/path/to/some/source/file/that/goes/on/and/on.go", "another/quite/long/dependency/path/**/*.txt",
 }
 
@@ -111,7 +112,7 @@ var cmdPieces = []string{
 
 var commentPieces = []string{
 	" a comment", "no space", " ", "  two", " é ünï", " task t() {}", " #", "#", " x := \"y\"", "\t tab", " -> (", " 日本語",
-	" trailing ",
+	" trailing ", " zw\u200cnj", " soft\u00adhyphen", " \ufeffbom", " it's 'quoted'",
 }
 
 // RandName draws an identifier (letters and '_' only, never the bare keyword).
